@@ -116,7 +116,11 @@ void stat_dump(void) { for (int i = 0; i < g_nstats; i++) printf("#STAT %s %ld\n
 unsigned char *gen_data(size_t len, int kind) {
     unsigned char *d = malloc(len ? len : 1);
     switch (kind) {
-    case 0: for (size_t i = 0; i < len; i++) d[i] = (unsigned char)rnd64(); break;
+    case 0: for (size_t i = 0; i < len; i++) d[i] = (unsigned char)rnd64();
+            /* every sixth random buffer starts, every other sixth one ends, with a run of zero bytes between a k-th and
+               all of its length: whole data fragments (the first ones / the last ones) are then zero while others are not */
+            { uint32_t z = rnd(6); if (z < 2 && len > 1) { size_t run = len / (1 + rnd(8)); if (rnd(4) == 0) run = len - 1; if (z == 0) memset(d, 0, run); else memset(d + len - run, 0, run); } }
+            break;
     case 1: memset(d, (int)rnd(256), len); break;
     case 2: { unsigned s = rnd(256); for (size_t i = 0; i < len; i++) d[i] = (unsigned char)(s + i); } break;
     case 3: memset(d, 0, len); if (len) d[rnd((uint32_t)len)] = (unsigned char)(1u << rnd(8)); break;
@@ -140,9 +144,14 @@ size_t gen_len(cfg_t c, int tier) {
 }
 
 /* ------------------------------------------------------------ stripes */
+/* the switch has several spellings of "set" and of "not set"; every writer call of every suite goes through this
+   function, so all of them are exercised everywhere (a rotating counter, not the PRNG: the sequence of random inputs
+   does not depend on it) */
 void set_legacy(int on) {
-    if (on) setenv("LIBERASURECODE_WRITE_LEGACY_CRC", "1", 1);
-    else unsetenv("LIBERASURECODE_WRITE_LEGACY_CRC");
+    static const char *ON[] = { "1", "yes", "00", "true", "false", "2", " " }, *OFF[] = { NULL, "", "0", NULL };
+    static unsigned n_on = 0, n_off = 0;
+    const char *v = on ? ON[n_on++ % 7] : OFF[n_off++ % 4];
+    if (v) setenv("LIBERASURECODE_WRITE_LEGACY_CRC", v, 1); else unsetenv("LIBERASURECODE_WRITE_LEGACY_CRC");
 }
 
 int stripe_make(stripe_t *s, cfg_t c, size_t len, int kind, int legacy) {
